@@ -159,7 +159,10 @@ def who_is_returned(ctx):
     u = ctx.unit('matching.Not.glomit')
     cfg = ctx.cfg(u)
     evs = evaluator_calls(p, u)
-    ctx.require(len(evs) == 1, 'Not.glomit: expected one evaluation')
+    ctx.ob(len(evs) == 1, u, 'Not evaluates its child once and inverts the outcome (no rewritten / shortcut evaluation)',
+           '' if len(evs) == 1 else 'found %d evaluator calls: %s' % (len(evs), [norm(e)[:70] for e in evs]))
+    if len(evs) != 1:
+        return
     hs = cfg.handlers_reached_from(cfg.node_containing(evs[0]))
     ok = len(hs) == 1 and p.global_qualname(u, hs[0].ast.type) == 'core.GlomError'
     ctx.ob(ok, u, 'Not inverts GlomError rejections')
